@@ -280,11 +280,11 @@ TLC_JOBS = {
     # style -> tier -> list of (cfg constants, workers, replay cap or None).  TLC checks every state of the bounded space; EMITMOD > 1 makes it
     # hand only the final states whose checksum is 0 mod EMITMOD to the replay (deterministic sample), the cap bounds the replay further.
     "google": {"quick": [({"LEN": 3, "ALPHA": "mid", "EMITMOD": 4}, 3, 3500), ({"LEN": 4, "ALPHA": "core", "EMITMOD": 12}, 6, 4500)],
-               "thorough": [({"LEN": 3, "ALPHA": "rich", "EMITMOD": 2}, 4, None), ({"LEN": 5, "ALPHA": "core", "EMITMOD": 24}, 8, 70000)]},
+               "thorough": [({"LEN": 3, "ALPHA": "rich", "EMITMOD": 2}, 4, 20000), ({"LEN": 5, "ALPHA": "core", "EMITMOD": 48}, 8, 25000)]},
     "numpy": {"quick": [({"LEN": 3, "ALPHA": "mid", "EMITMOD": 4}, 3, 3500), ({"LEN": 4, "ALPHA": "core", "EMITMOD": 8}, 4, 4500)],
-              "thorough": [({"LEN": 3, "ALPHA": "mid", "EMITMOD": 1}, 4, None), ({"LEN": 5, "ALPHA": "core", "EMITMOD": 24}, 8, 70000)]},
+              "thorough": [({"LEN": 3, "ALPHA": "mid", "EMITMOD": 2}, 4, 20000), ({"LEN": 5, "ALPHA": "core", "EMITMOD": 24}, 8, 25000)]},
     "sphinx": {"quick": [({"LEN": 3, "ALPHA": "core", "EMITMOD": 2}, 2, 3500), ({"LEN": 4, "ALPHA": "mini", "EMITMOD": 3}, 2, 3500)],
-               "thorough": [({"LEN": 3, "ALPHA": "rich", "EMITMOD": 1}, 4, None), ({"LEN": 4, "ALPHA": "core", "EMITMOD": 6}, 6, None), ({"LEN": 5, "ALPHA": "mini", "EMITMOD": 4}, 6, None)]},
+               "thorough": [({"LEN": 3, "ALPHA": "rich", "EMITMOD": 2}, 4, 20000), ({"LEN": 4, "ALPHA": "core", "EMITMOD": 8}, 6, 25000), ({"LEN": 5, "ALPHA": "mini", "EMITMOD": 6}, 6, 20000)]},
 }
 
 
@@ -326,17 +326,24 @@ def main(tier: str, replay: str | None = None):
         n = st.check_classifier()
         run.extra.setdefault("classifier_checks", {})[st.style] = n
     jobs = {}
-    with ThreadPoolExecutor(max_workers=8) as pool:
-        for style, st in styles.items():
-            for consts, workers, cap in TLC_JOBS[style][tier]:
-                jobs[style, json.dumps(consts, sort_keys=True)] = (pool.submit(run_tlc, st.module, f"{st.module}_seq.cfg", workers=workers, constants=dict(consts, EMIT="TRUE"), timeout=3000, heap="6g"), cap)
-            for (dstyle, dlabel) in SMALL_DOMAINS:
-                if dstyle == style:
-                    jobs[style, dlabel] = (pool.submit(run_tlc, st.module, f"{st.module}_{dlabel}.cfg", workers=1, timeout=600, extra=["-continue"]), None)
-    print(f"TLC done after {time.time() - t0:.1f}s", flush=True)
+    pool = ThreadPoolExecutor(max_workers=14)
+    for style, st in styles.items():
+        for consts, workers, cap in TLC_JOBS[style][tier]:
+            jobs[style, json.dumps(consts, sort_keys=True)] = (pool.submit(run_tlc, st.module, f"{st.module}_seq.cfg", workers=workers, constants=dict(consts, EMIT="TRUE"), timeout=3000, heap="6g"), cap)
+        for (dstyle, dlabel) in SMALL_DOMAINS:
+            if dstyle == style:
+                jobs[style, dlabel] = (pool.submit(run_tlc, st.module, f"{st.module}_{dlabel}.cfg", workers=1, timeout=600, extra=["-continue"]), None)
+    order = list(jobs)
+    if tier == "quick":
+        pool.shutdown(wait=True)
+        print(f"TLC done after {time.time() - t0:.1f}s", flush=True)
+    else:
+        # thorough: replay the small jobs while TLC still works on the deepest ones (they are taken last)
+        order.sort(key=lambda k: ("LEN" in k[1] and json.loads(k[1])["LEN"] >= 5, "LEN" in k[1] and json.loads(k[1])["LEN"]))
     run.exhaustive = True
     stuck: set = set()
-    for (style, label), (fut, cap) in jobs.items():
+    for (style, label) in order:
+        fut, cap = jobs[style, label]
         st = styles[style]
         res = fut.result()
         if style in stuck and (style, label) not in SMALL_DOMAINS:
@@ -384,11 +391,12 @@ def main(tier: str, replay: str | None = None):
             run.exhaustive = False
         stats = Stats()
         t1 = time.time()
-        replay_cases(run, st, griffe, parents, cases, rnd, stats, f"tlc:{label}", 3 if tier == "quick" else 5)
+        replay_cases(run, st, griffe, parents, cases, rnd, stats, f"tlc:{label}", 3 if tier == "quick" else 4)
         print(f"{style} {label}: {len(cases)} cases, {stats.parses} parses in {time.time() - t1:.1f}s", flush=True)
         if stats.timeouts >= 4:
             stuck.add(style)
         report_drift(run, style, stats)
-    n_long = long_sequences(run, styles, griffe, parents, 400 if tier == "quick" else 20000, 14 if tier == "quick" else 40, stuck)
+    n_long = long_sequences(run, styles, griffe, parents, 400 if tier == "quick" else 8000, 14 if tier == "quick" else 40, stuck)
+    pool.shutdown(wait=True)
     run.extra["long_sequences"] = n_long
     run.finish()
